@@ -22,9 +22,9 @@
 # immediately; all child exceptions are collected and re-raised as part of a single
 # Concurrent exception".  Nothing documents a silent abort.
 # Confidence: high that the silent abort is a genuine defect.
-import sys; sys.path.insert(0, '/tmp/hunt2')
+import sys; sys.path.insert(0, '/repo')
 import usim
-assert usim.__file__.startswith('/tmp/hunt2')
+assert usim.__file__.startswith('/repo')
 from usim import run, time, Scope, TaskCancelled, Concurrent
 
 log = []
